@@ -50,6 +50,8 @@ def grep_forbidden():
     return bad
 
 
+DRV_OK = False
+
 def lean_stage(pid, cfg, thorough):
     """returns (obligations, discharged, failures[list of str], axioms{thm:[..]}, log)"""
     log = []
@@ -61,7 +63,14 @@ def lean_stage(pid, cfg, thorough):
     bad = grep_forbidden()
     if bad:
         failures.append("forbidden constructs: " + "; ".join(bad[:5]))
-    targets = [f"HC.Props.{pid}", "drv"] + cfg.get("bridge_modules", [])
+    # the driver first: a proof that no longer checks must not prevent the search for a failing input
+    rd = sh(["lake", "build", "drv"], cwd=LEAN, timeout=3600)
+    log.append(rd.stdout[-3000:])
+    global DRV_OK
+    DRV_OK = rd.returncode == 0
+    if not DRV_OK:
+        failures.append("driver build failed: " + rd.stdout[-300:])
+    targets = [f"HC.Props.{pid}"] + cfg.get("bridge_modules", [])
     r = sh(["lake", "build"] + targets, cwd=LEAN, timeout=3600)
     log.append(r.stdout[-6000:])
     build_ok = r.returncode == 0
@@ -145,7 +154,7 @@ def main():
     obligations, discharged, lean_fail, axioms, lean_log = lean_stage(pid, cfg, tier == "thorough")
     open(os.path.join(work, "lean.log"), "w").write(lean_log)
     drv = os.path.join(LEAN, ".lake", "build", "bin", "drv")
-    have_drv = os.path.exists(drv) and not any("lake build failed" in f for f in lean_fail)
+    have_drv = os.path.exists(drv) and DRV_OK
 
     # ---- harness
     ok, blog = harness_build(cfg.get("features", ""))
